@@ -112,3 +112,6 @@ Definition stage0_ok (c : (bool * Z * Z * wstate payload) * observed * bool) : b
   | [] => true     (* every cell is empty: the run raises before the file is opened *)
   | _ => stage0_okb payload_eqb u0 u1 w
   end.
+
+Definition stage0_or_invalid (c : (bool * Z * Z * wstate payload) * observed * bool) : bool :=
+  let '(_, _, valid) := c in stage0_ok c || negb valid.
